@@ -233,7 +233,11 @@ def get_connected_components(head_mapping):
         others = [groups.pop(keys) for keys in matches]
         new_group = series_at_head.union(*others)
         groups[new_keys] = new_group
-    connected_components = sorted(list(groups.keys()), key=len, reverse=True)
+    connected_components = sorted(
+        list(groups.keys()),
+        key=lambda keys: (len(groups[keys]) > 1, len(keys)),
+        reverse=True,
+    )
     # sanity check: union should include all head_id ids
     assert sum(len(cc) for cc in connected_components) == len(head_mapping)
     assert set().union(*[set(cc) for cc in connected_components]) == set(
